@@ -40,9 +40,36 @@ class StoreModel:
         self.field_types = {}  # cls.qname -> {field: ClassInfo}
         for c in self.classes:
             self._fields(c)
+        # private helpers (`_x`, called through self only) are inlined into the API methods that use them and are not
+        # judged on their own: a helper that deletes a row with the caller's cursor and lets the caller commit is part
+        # of the caller's transaction
+        from ..repo import inline_private_calls
+        self.fns = {}
+        self.internal = set()
         for c in self.classes:
+            called_inside = {x.func.attr for fn in c.methods.values() for x in ast.walk(fn) if isinstance(x, ast.Call) and is_self_attr(x.func)}
+            referenced_elsewhere = set()
+            for m in self.repo.modules.values():
+                for k in m.classes.values():
+                    if k is c:
+                        continue
+                    for fn in k.methods.values():
+                        for x in ast.walk(fn):
+                            if isinstance(x, ast.Attribute) and x.attr.startswith("_") and not x.attr.startswith("__") and x.attr in c.methods:
+                                referenced_elsewhere.add(x.attr)
             for name, fn in c.methods.items():
-                self._scan(c, name, fn)
+                new = inline_private_calls(self.repo, c, fn)
+                self.fns[(c.qname, name)] = new
+            for name in c.methods:
+                if name.startswith("_") and not name.startswith("__") and name in called_inside and name not in referenced_elsewhere:
+                    still = any(isinstance(x, ast.Call) and is_self_attr(x.func, name) for (q, n_), f_ in self.fns.items() if q == c.qname and n_ != name for x in ast.walk(f_))
+                    if not still:
+                        self.internal.add((c.qname, name))
+        for c in self.classes:
+            for name in c.methods:
+                if (c.qname, name) in self.internal:
+                    continue
+                self._scan(c, name, self.fns[(c.qname, name)])
 
     def _fields(self, c):
         ft = {}
@@ -58,7 +85,7 @@ class StoreModel:
     def cfg(self, c, name):
         key = (c.qname, name)
         if key not in self._cfg:
-            self._cfg[key] = CFG(c.methods[name])
+            self._cfg[key] = CFG(self.fns.get(key, c.methods[name]))
         return self._cfg[key]
 
     def _const_str(self, c, fn, g, node, expr, strconsts):
@@ -188,7 +215,7 @@ WRITE = ("INSERT", "UPDATE", "DELETE")
 def api_methods(model):
     for c in model.classes:
         for name in c.methods:
-            if name.startswith("__"):
+            if name.startswith("__") or (c.qname, name) in model.internal:
                 continue
             yield c, name
 
@@ -247,6 +274,18 @@ def tuple_len(params):
     return None
 
 
+SQL_WORDS = {"max", "min", "count", "coalesce", "ifnull", "sum", "avg", "length", "abs", "distinct", "as", "null", "total", "nullif", "cast", "integer", "text"}
+
+
+def sql_columns(expr, table_cols):
+    """(columns of the table named in a select expression, identifiers that are neither columns nor SQL words)"""
+    import re
+    toks = re.findall(r"[A-Za-z_][A-Za-z_0-9]*", expr)
+    cols = [t for t in toks if t in table_cols]
+    unknown = [t for t in toks if t not in table_cols and t.lower() not in SQL_WORDS]
+    return cols, unknown
+
+
 def rule_schema(ctx, model):
     inserted = {}   # table -> set(cols)
     for (c, name, n, st, params) in model.stmts:
@@ -272,10 +311,10 @@ def rule_schema(ctx, model):
         cols = list(st.columns) if st.verb in ("INSERT", "UPDATE") else []
         if st.verb == "SELECT":
             for col in st.columns:
-                base = col
-                if "(" in col:
-                    base = col[col.index("(") + 1: col.rindex(")")].strip()
-                if base != "*" and base not in t.columns:
+                if col.strip() == "*":
+                    continue
+                _cs, unknown = sql_columns(col, t.columns)
+                if unknown:
                     probs.append("selected column %r not in table" % col)
         for col in cols:
             if col not in t.columns:
@@ -313,7 +352,7 @@ def rule_schema(ctx, model):
             continue
         single = st.verb in ("DELETE", "UPDATE")
         if st.verb == "SELECT":
-            fn = c.methods[name]
+            fn = model.fns.get((c.qname, name), c.methods[name])
             single = any(isinstance(x, ast.Call) and isinstance(x.func, ast.Attribute) and x.func.attr == "fetchone" for x in ast.walk(fn))
         if not single:
             continue
@@ -327,10 +366,13 @@ def rule_schema(ctx, model):
         if st.verb == "SELECT" and st.table in inserted:
             w = where(c.relpath, c.name + "." + name, n.line)
             bad = []
+            tcols = model.tables[st.table].columns if st.table in model.tables else []
             for col in st.columns:
-                base = col[col.index("(") + 1: col.rindex(")")].strip() if "(" in col else col
-                if base not in inserted[st.table]:
-                    bad.append(base)
+                if col.strip() == "*":
+                    continue
+                for base in sql_columns(col, tcols)[0]:
+                    if base not in inserted[st.table]:
+                        bad.append(base)
             for (col, op, rhs) in st.where:
                 if col is not None and col not in inserted[st.table]:
                     bad.append(col)
@@ -351,6 +393,16 @@ def binding_of(d, node, expr, fn):
     idx = tuple(sorted(ps.index(s[1]) for s in src if s[0] == "param" and s[1] in ps))
     chain = []
     e = expr
+    seen = 0
+    while isinstance(e, ast.Name) and e.id not in ps and seen < 4:
+        # a local bound exactly once (`groupId = name.getGroupId()`): described by what it was bound to
+        defs = [a.value for a in ast.walk(fn) if isinstance(a, ast.Assign) and len(a.targets) == 1 and isinstance(a.targets[0], ast.Name) and a.targets[0].id == e.id]
+        if len(defs) != 1:
+            break
+        e = defs[0]
+        seen += 1
+        if isinstance(e, ast.IfExp):
+            e = e.orelse
     while isinstance(e, ast.Call) and isinstance(e.func, ast.Attribute):
         chain.append(e.func.attr)
         e = e.func.value
@@ -364,7 +416,7 @@ def rule_bind(ctx, model):
     for (c, name, n, st, params) in model.stmts:
         if st.verb not in ("INSERT", "UPDATE", "DELETE", "SELECT") or not isinstance(params, (ast.Tuple, ast.List)):
             continue
-        fn = c.methods[name]
+        fn = model.fns.get((c.qname, name), c.methods[name])
         g = model.cfg(c, name)
         d = Deps(g)
         # order of placeholders: INSERT values, UPDATE set values, then WHERE terms
